@@ -32,6 +32,9 @@ func runC12(c *an.Ctx) {
 	r12j(c)
 	r12k(c)
 	r12l(c)
+	// round 7
+	awaitedToTheEnd(c, "R12m", "notify")
+	r12n(c)
 }
 
 const ccPkg = "core/controlcommands"
